@@ -37,8 +37,10 @@ func svdPipeline(k *chk, c *inst, count func()) {
 		minw := maxi(1, maxi(m, n))
 		k.where = desc("Dgebrd query m", m, "n", n, "lda", lda)
 		opt, ok := k.query("Dgebrd", minw, func(w []float64) { impl.Dgebrd(m, n, a0, lda, d0, e0, tq0, tp0, w, -1) }, a0, d0, e0, tq0, tp0)
-		for _, lwork := range lwVariants(minw, opt, ok) {
-			k.where = desc("Dgebrd m", m, "n", n, "lda", lda, "lwork", lwork)
+		for oi, lw := range lworkGrid(minw, opt, ok, lda, mn) {
+			lwork := lw.lwork
+			gridNote("lwork_grid", desc("Dgebrd", lw.name, "lda+"+desc(pad)))
+			k.where = desc("Dgebrd m", m, "n", n, "lda", lda, "lwork", lwork, "("+lw.name+")")
 			a := build(c.A, c.Den, 0, m, n, lda, 1)
 			d, e, tauq, taup := outVec(mn, 1), outVec(mn-1, 1), outVec(mn, 1), outVec(mn, 1)
 			work := newWork(lwork)
@@ -90,10 +92,12 @@ func svdPipeline(k *chk, c *inst, count func()) {
 			optq, okq := k.query("Dorgbr", maxi(1, mn), func(w []float64) { impl.Dorgbr(lapack.GenerateQ, m, mn, n, u0, ldu, tauq, w, -1) }, u0, tauq)
 			k.where = desc("Dorgbr(PT) query m", mn, "n", n, "k", m, "ldvt", ldvt)
 			optp, okp := k.query("Dorgbr", maxi(1, mn), func(w []float64) { impl.Dorgbr(lapack.GeneratePT, mn, n, m, vt0, ldvt, taup, w, -1) }, vt0, taup)
-			lq := lwVariants(maxi(1, mn), optq, okq)
-			lp := lwVariants(maxi(1, mn), optp, okp)
+			lq := innerGrid(oi, lworkGrid(maxi(1, mn), optq, okq, ldu, mn))
+			lp := innerGrid(oi, lworkGrid(maxi(1, mn), optp, okp, ldvt, mn))
 			for vi := 0; vi < maxi(len(lq), len(lp)); vi++ {
-				lwq, lwp := lq[mini(vi, len(lq)-1)], lp[mini(vi, len(lp)-1)]
+				lwq, lwp := lq[mini(vi, len(lq)-1)].lwork, lp[mini(vi, len(lp)-1)].lwork
+				gridNote("lwork_grid", desc("Dorgbr(Q)", lq[mini(vi, len(lq)-1)].name, "ldu+"+desc(pad)))
+				gridNote("lwork_grid", desc("Dorgbr(PT)", lp[mini(vi, len(lp)-1)].name, "ldvt+"+desc(pad)))
 				u, vt := mkU(), mkVT()
 				k.where = desc("Dgebrd+Dorgbr(Q) m", m, "n", n, "ldu", ldu, "lwork", lwork, "lworkq", lwq)
 				if !k.run("Dorgbr", func() { impl.Dorgbr(lapack.GenerateQ, m, mn, n, u, ldu, tauq, newWork(lwq), lwq) }) {
